@@ -86,11 +86,86 @@ class Roots:
         self.fn = fn_node
         self.param = param
         self.defs = {}
+        self.guards = {}
         self._collect()
         self._memo = {}
 
     def _add(self, name, expr):
         self.defs.setdefault(name, []).append(expr)
+        self.guards[id(expr)] = self._guards_of(expr)
+
+    def _guards_of(self, node):
+        """Tests of the `if` statements that enclose the statement holding
+        `node` (up to the function)."""
+        out = []
+        child = node
+        n = getattr(node, '_parent', None)
+        while n is not None and n is not self.fn:
+            if isinstance(n, ast.If) and child is not n.test:
+                out.append(n.test)
+            child = n
+            n = getattr(n, '_parent', None)
+        return out
+
+    def _mentions_root(self, test, r):
+        for n in ast.walk(test):
+            if isinstance(n, ast.Attribute) and isinstance(
+                    n.value, ast.Name) and n.value.id == self.param and \
+                    n.attr == r:
+                return True
+            if isinstance(n, ast.Call) and unparse(n.func) in (
+                    'getattr', 'hasattr') and len(n.args) >= 2 and \
+                    isinstance(n.args[0], ast.Name) and \
+                    n.args[0].id == self.param and isinstance(
+                        n.args[1], ast.Constant) and n.args[1].value == r:
+                return True
+        return False
+
+    def clean(self, e, _stack=None):
+        """Roots that reach `e` along definitions that are unconditional
+        or guarded only by presence tests on that same root (e.g.
+        `if getattr(rule, 'pch', None): deps.append(rule.pch)`)."""
+        _stack = _stack or set()
+        out = set()
+        if e is None:
+            return out
+        if isinstance(e, ast.IfExp):
+            for part in (e.body, e.orelse):
+                out |= {r for r in self.clean(part, _stack)
+                        if self._mentions_root(e.test, r)}
+            return out
+        for n in ast.iter_child_nodes(e) if not isinstance(
+                e, (ast.Name, ast.Attribute, ast.Call)) else [None]:
+            if n is None:
+                break
+            out |= self.clean(n, _stack)
+        if isinstance(e, ast.Attribute):
+            if isinstance(e.value, ast.Name) and e.value.id == self.param:
+                out.add(e.attr)
+            else:
+                out |= self.clean(e.value, _stack)
+        elif isinstance(e, ast.Call):
+            if unparse(e.func) == 'getattr' and len(e.args) >= 2 and \
+                    isinstance(e.args[0], ast.Name) and \
+                    e.args[0].id == self.param and isinstance(
+                        e.args[1], ast.Constant):
+                out.add(e.args[1].value)
+                for a in e.args[2:]:
+                    out |= self.clean(a, _stack)
+            else:
+                for a in list(e.args) + [k.value for k in e.keywords]:
+                    out |= self.clean(a, _stack)
+                if isinstance(e.func, ast.Attribute):
+                    out |= self.clean(e.func.value, _stack)
+        elif isinstance(e, ast.Name):
+            if e.id in self.defs and e.id not in _stack and \
+                    e.id != self.param:
+                for d in self.defs[e.id]:
+                    sub = self.clean(d, _stack | {e.id})
+                    gs = self.guards.get(id(d), [])
+                    out |= {r for r in sub
+                            if all(self._mentions_root(g, r) for g in gs)}
+        return out
 
     def _collect(self):
         for n in ast.walk(self.fn):
@@ -184,3 +259,33 @@ def call_arg(call, name, pos):
     if pos is not None and pos < len(call.args):
         return call.args[pos]
     return None
+
+
+def env_export(ctx, rule_id, backends=('make', 'ninja', 'compdb')):
+    """ENV-EXPORT: every emitter of command/build_step edges hands
+    `global_env(rule.env, rule.cmds)` -- environment exported for *all*
+    commands of the step -- to the recipe/command, after inlining locals."""
+    repo = ctx.repo
+    K = 'bfg9000.builtins.command:'
+    table = {'make': (K + 'make_command', 'make.multitarget_rule', 'recipe'),
+             'ninja': (K + 'ninja_command', 'ninja.command_build',
+                       'command'),
+             'compdb': (K + 'compdb_copy_file', 'buildfile.append',
+                        'arguments')}
+    for b in backends:
+        fq, callee, kw = table[b]
+        f = repo.func(fq)
+        hit = [c for c in Q.calls(f.node) if unparse(c.func) == callee]
+        ok = False
+        got = None
+        if len(hit) == 1:
+            a = Q.kwarg(hit[0], kw)
+            got = Q.inline(f.node, a) if a is not None else None
+            ok = got in ('shell.global_env(rule.env, rule.cmds)',
+                         'pshell.global_env(rule.env, rule.cmds)',
+                         '[pshell.global_env(rule.env, rule.cmds)]',
+                         '[shell.global_env(rule.env, rule.cmds)]')
+        ctx.ob(rule_id, 'env-export|' + fq, ok, f.node,
+               '{} passes {} as the command: the step environment is not '
+               'exported for every command of the step'.format(
+                   fq.split(':')[1], got))
